@@ -7,10 +7,12 @@ import iglib
 from gen import macgen
 from props.c12 import workdir
 
-THEOREMS = ["IgVerif.C08.c08_stringify_roundtrip", "IgVerif.C08.c08_stringify_delimited", "IgVerif.C08.go_reads_back", "IgVerif.C08.step_reads_back"]
+THEOREMS = ["IgVerif.C08.c08_literal_opaque", "IgVerif.C08.c08_literal_body", "IgVerif.C08.c08_stringify_param", "IgVerif.C08.c08_identity_param", "IgVerif.C08.c08_paste_params", "IgVerif.Exp.save_literal", "IgVerif.Exp.takeLit_clean",
+            "IgVerif.C08.c08_stringify_roundtrip", "IgVerif.C08.c08_stringify_delimited", "IgVerif.C08.go_reads_back", "IgVerif.C08.step_reads_back"]
 PARTIAL = [("c08_conforms (tokens of interrogate's expansion = tokens of a conforming preprocessor, for every macro program)",
-            "only the # operator (round trip of stringify) and the termination measure of the ignore-set recursion are theorems; r_expand (##, __VA_ARGS__, "
-            "__VA_OPT__), argument collection, rescanning and the directive handling are explored per run against gcc -E on generated macro programs"),
+            "theorems cover the # operator (round trip of stringify) and one level of expansion (Model/Expand.lean = save_expansion + r_expand: literals are opaque, "
+            "a literal body expands to itself, #param is stringify(argument)); that model is tied to the real code on single-macro programs; __VA_OPT__, argument "
+            "collection, rescanning (expand_manifests) and the directive handling are explored per run against gcc -E on generated macro programs"),
            ("blue paint (hide sets)", "interrogate expands on strings and cannot remember that a token was already exempted from expansion: known finding")]
 
 MODES = [("object-like+self-reference", ("obj", "self", "undef", "push", "literals")),
@@ -102,6 +104,74 @@ def run(ck):
                 ck.violation("expansion-differs:%s:%s" % (mode, feats), "parse_file -E and gcc -E disagree on a %s program (features %s); first differing statement: gcc `%s` / parse_file `%s`"
                              % (mode, feats, ga[where].strip()[:200] if where >= 0 else "?", rb[where].strip()[:200] if where >= 0 else "?"),
                              {"m.h": text}, "gcc:\n%s\nparse_file -E:\n%s\n" % (gout, rout))
+
+        # ---- one level of expansion against the Lean model of save_expansion + r_expand, and against gcc ---------------------------------
+        IDS2 = ["alpha", "beta", "x1", "y2"]
+        LIT2 = ['"s"', '"a b"', '"p0"', '"#p1"', '"p0 ## p1"', '"#FF0000"', "'c'", "'#'", '"it\'s p0"', '"/* p1 */"', '"http://h/p0"', '""']
+        prog, cases = [], []
+        for i in range(120 if quick else 3000):
+            nparam = rng.choice([0, 1, 1, 2, 2, 3])
+            params = ["p%d" % j for j in range(nparam)]
+            variadic = rng.random() < 0.3
+            body = []
+            for _ in range(rng.randrange(1, 7)):
+                r = rng.random()
+                if r < 0.3 and params:
+                    body.append(rng.choice(params))
+                elif r < 0.4 and params:
+                    body += ["#", rng.choice(params)]
+                elif r < 0.5 and (params or True):
+                    body += [rng.choice(params + IDS2), "##", rng.choice(params + IDS2 + ["1"])]
+                elif r < 0.7:
+                    body.append(rng.choice(LIT2))
+                elif r < 0.8 and variadic:
+                    body += rng.choice([["__VA_ARGS__"], ["#", "__VA_ARGS__"], [",", "##", "__VA_ARGS__"]])
+                else:
+                    body.append(rng.choice(IDS2 + ["+", "*", "(", ")", ",", "42", "=="]))
+            if body.count("(") != body.count(")"):
+                body = [t for t in body if t not in "()"]
+            if not body:
+                body = ["alpha"]
+            nargs = nparam + (rng.choice([0, 1, 2]) if variadic else 0)
+            args = [" ".join(rng.choice(IDS2 + ["7", '"q"', "'z'", '"a,b"', "+"]) for _ in range(rng.choice([1, 1, 2, 0]))) for _ in range(nargs)]
+            if nparam == 0 and not variadic:
+                args = []
+            name = "X%d" % i
+            btext = " ".join(body)
+            two = ["#define %s(%s) %s" % (name, ", ".join(params + (["..."] if variadic else [])), btext), "r%d = %s(%s) ;" % (i, name, ", ".join(args))]
+            (wd / "one.h").write_text("\n".join(two) + "\n")
+            if subprocess.run(["gcc", "-E", "-P", "-x", "c", "-std=gnu2x", "one.h"], cwd=wd, capture_output=True).returncode != 0:
+                ck.extra["single_expansion_rejected_by_gcc"] = ck.extra.get("single_expansion_rejected_by_gcc", 0) + 1
+                prog += ["", ""]          # (keeps statement i at lines 2i, 2i+1)
+                continue
+            prog += two
+            cases.append((i, params, variadic, btext, args))
+        text = "\n".join(prog) + "\n"
+        res = run_pair(bdir, wd, text)
+        if res is not None and res[0] == "ok":
+            _, gout, rout, rerr = res
+            def stmts(out):
+                return dict((int(m.group(1)), macgen.tokenize(m.group(2))) for m in re.finditer(r"\br(\d+) ?= ?(.*?);", out.replace("\n", " ")))
+            gs, rs = stmts(gout), stmts(rout)
+            ops = ["expand %s %s %s %s" % (",".join(p.encode().hex() for p in params) or "-", len(params) if variadic else "-", btext.encode().hex(),
+                                          " ".join(a.encode().hex() or "-" for a in args)) for _, params, variadic, btext, args in cases]
+            model = iglib.run_driver("macro", ops, timeout=600)
+            for (i, params, variadic, btext, args), m in zip(cases, model):
+                mt = macgen.tokenize(bytes.fromhex(m).decode("latin-1")) if m != "-" else []
+                shown = "#define X(%s) %s  with X(%s)" % (", ".join(params + (["..."] if variadic else [])), btext, ", ".join(args))
+                feats = [f for f, t in (("stringify", "#"), ("paste", "##"), ("variadic", "__VA_ARGS__")) if t in btext.split()] + (["literal"] if '"' in btext or "'" in btext else [])
+                if any(odd_number(t) for t in gs.get(i, [])):
+                    continue
+                ck.corr_case("single-expansion-vs-Expand-model", shown, rs.get(i) == mt, detail="parse_file `%s`, model `%s`" % (" ".join(rs.get(i, ["?"])), " ".join(mt)), nontrivial=True, feature=feats or ["plain"])
+                ck.search_case("tokens-equal-gcc:single-expansion")
+                if rs.get(i) != gs.get(i):
+                    if squeeze_literals(rs.get(i, [])) == squeeze_literals(gs.get(i, [])):
+                        ck.violation("known:stringify-respacing", "the text produced by # differs from gcc's only in white space", {"m.h": "\n".join(prog[2 * i:2 * i + 2]) + "\n"}, "")
+                    else:
+                        ck.violation("expansion-differs:single:" + "+".join(feats), "%s: gcc `%s`, parse_file `%s`" % (shown, " ".join(gs.get(i, ["?"])), " ".join(rs.get(i, ["?"]))),
+                                     {"m.h": "\n".join(prog[2 * i:2 * i + 2]) + "\n"}, "")
+        else:
+            ck.extra["single_expansion_program_rejected"] = True
 
         # ---- the # operator against the Lean model ------------------------------------------------------------------------------------------
         pieces = ['"s"', '"q\\"r"', '"back\\\\slash"', "'c'", "'\\''", "'\"'", '"it\'s"', '"x,y"', '"a\\nb"', '"\\\\"', "'\\\\'", "alpha", "42", "+", "(", ")", '""', '"\\"\\""', "x1"]
